@@ -12,7 +12,8 @@ SPEC = "c10_delayed_queue"
 # constants of the exhaustive / generation instances (MC_C10.tla, GenC10.tla): needed to replay their behaviours
 def F(*v):
     return {"q%d" % (i + 1): x for i, x in enumerate(v)}
-MC = {"MC_dpq_peek": {"prio": F(1, 0, 1), "ttl": F(3, 2, 3), "quota": 1, "w": 2, "qsize": 2},
+MC = {"MC_dpq_overtake": {"prio": F(1, 0, 1), "ttl": F(3, 3, 5), "quota": 1, "w": 2, "qsize": 2},
+      "MC_dpq_peek": {"prio": F(1, 0, 1), "ttl": F(3, 2, 3), "quota": 1, "w": 2, "qsize": 2},
       "MC_dpq_kf": {"prio": F(1, 0, 1), "ttl": F(3, 3, 5), "quota": 1, "w": 2, "qsize": 2},
       "MC_dpq_kf_strand": {"prio": F(1, 0, 1), "ttl": F(3, 3, 5), "quota": 1, "w": 2, "qsize": 2}}
 GENS = {"GenC10_a": {"prio": F(1, 0, 1, 2, 0, 1), "ttl": F(3, 4, 6, 2, 5, 8), "quota": 1, "w": 2, "qsize": 2},
@@ -28,19 +29,30 @@ def conf(c, mode):
 
 
 def hist_to_script(hist, c):
-    """driver-level step history of DpqI -> executor events: arrivals (held at the yield point or not), releases of held
-    goroutines, ticks with the delivery order of the timers due at that instant, and the roll-over goroutine held inside
-    its critical section while the other timers of the instant are delivered"""
-    out = []
+    """driver-level step history of DpqI -> executor events: arrivals (held at the yield point or not; "early" = right after
+    a tick, before any timer of the new instant is delivered), releases of held goroutines, ticks with the delivery order
+    of the timers due at that instant, and the roll-over goroutine held inside its critical section while the other timers
+    of the instant are delivered"""
+    out, ops = [], {}
     for e in hist:
-        if e["ev"] == "enq":
-            out.append({"ev": "enq", "id": e["i"], "prio": c["prio"][e["i"]], "ttl": c["ttl"][e["i"]], "gate": bool(e["gate"])})
+        if e["ev"] == "arrive":
+            o = {"ev": "enq", "id": e["i"], "prio": c["prio"][e["i"]], "ttl": c["ttl"][e["i"]], "gate": False}
+            ops[e["i"]] = o
+            if e["early"]:                  # the tick before it becomes "tick, then these arrivals, then the timers"
+                k = max(i for i, x in enumerate(out) if x["ev"] in ("tick", "race"))
+                if out[k]["ev"] == "tick":
+                    out[k] = dict(out[k], ev="race", ops=[])
+                out[k]["ops"].append(o)
+            else:
+                out.append(o)
+        elif e["ev"] == "enq":
+            ops[e["i"]]["gate"] = bool(e["gate"])
         elif e["ev"] == "park":
             out.append({"ev": "park", "id": e["i"]})
         elif e["ev"] == "tick":
             out.append({"ev": "tick", "rev": bool(e.get("rev"))})
         elif e["ev"] == "hold":             # decided when the roll-over runs: a property of the tick that woke it
-            k = max(i for i, x in enumerate(out) if x["ev"] == "tick")
+            k = max(i for i, x in enumerate(out) if x["ev"] in ("tick", "race"))
             out[k]["hold"] = True
         elif e["ev"] == "unhold":
             out.append({"ev": "unhold"})
@@ -59,7 +71,7 @@ def rand_history(rng, cfg, n):
     def enq(gate_ok=True):
         # the id names priority and time-to-live (DpqITrace reads them as constants of the whole trace)
         while True:
-            ttl = rng.choice([2, 4, 6]) if even else rng.choice([1, 2, 3, 4, 5, 7])
+            ttl = rng.choice([2, 3, 4, 5, 6]) if even else rng.choice([1, 2, 3, 4, 5, 7])     # plugin: also x.5 seconds
             prio = rng.choice([0, 0, 1, 2])
             free = [c for c in "abcdefgh" if "p%dt%d%s" % (prio, ttl, c) not in used]
             if free:
@@ -88,7 +100,9 @@ def rand_history(rng, cfg, n):
         elif x < 0.52:
             h.append({"ev": "conc", "ops": [enq(False) for _ in range(rng.randint(2, 3))]})
         elif x < 0.60:
-            h.append({"ev": "race", "ops": [enq(False) for _ in range(rng.randint(1, 3))], "rev": rng.random() < 0.4})
+            # arrivals just after the tick, before the roll-over goroutine and the TTL timers of the new instant run
+            h.append({"ev": "race", "ops": [enq(False) for _ in range(rng.randint(1, 3))], "rev": rng.random() < 0.4,
+                      "together": rng.random() < 0.5})
         else:
             h.append(enq())
     return h
@@ -304,7 +318,8 @@ def run(ctx):
     if T:
         good.append(("MC_dpq_large", "I=>P 4 requests, quota 2, queue 2"))
     bad = [("MC_dpq_kf", "pinned hand-off must violate P"), ("MC_dpq_kf_strand", "pinned hand-off must strand a popped request"),
-           ("MC_dpq_peek", "looking at the hand-over channel before re-taking the mutex must violate P")]
+           ("MC_dpq_peek", "looking at the hand-over channel before re-taking the mutex must violate P"),
+           ("MC_dpq_overtake", "an arrival that overtakes the waiters at a window boundary must violate P")]
     def mc(it):
         if it in good:
             return ctx.tlc_exhaustive(sd, "MC_C10", it[0] + ".cfg", workers=4 if not T else 8, timeout=3000, label=it[1],
@@ -327,9 +342,20 @@ def run(ctx):
                 evs = hist_to_script(cxs[0], c)
                 if mode == "plugin":
                     # a tick of the model = two ticks (one second); what happens at it happens at the second one
-                    evs = [x for e in evs for x in ([{"ev": "tick"}, e] if e["ev"] == "tick" else [e])]
+                    evs = [x for e in evs for x in ([{"ev": "tick"}, e] if e["ev"] in ("tick", "race") else [e])]
                 scripts.append({"config": conf(c, mode), "histories": [[{"ev": "reset", "now": 0}] + evs]})
                 names.append(it[0] + "/" + mode)
+    # arrivals exactly at / just after a window boundary racing the roll-over goroutine, both orders, quota 2
+    def B(i, prio, ttl):
+        return {"ev": "enq", "id": i, "prio": prio, "ttl": ttl}
+    for mode, k in (("dpq", 1), ("plugin", 2)):
+        w = 2 * k
+        pre = [{"ev": "reset", "now": 0}, B("a", 0, 3 * k), B("b", 0, 3 * k), B("c", 1, 3 * k), B("d", 1, 5 * k)] + [{"ev": "tick"}] * (w - 1)
+        scripts.append({"config": {"quota": 2, "w": w, "qsize": 3, "mode": mode}, "histories": [
+            pre + [{"ev": "race", "ops": [B("e", 0, 3 * k)]}, {"ev": "tick"}, {"ev": "tick"}],                       # arrival first, then the roll-over
+            pre + [{"ev": "tick"}, B("e", 0, 3 * k), {"ev": "tick"}, {"ev": "tick"}],                                # roll-over first
+            pre + [{"ev": "race", "ops": [B("e", 2, 3 * k), B("f", 0, 3 * k)], "together": True}, {"ev": "tick"}, {"ev": "tick"}]]})
+        names.append("boundary/" + mode)
     # reconfiguration at plugin level: the remedy is re-applied under the same name with the quota raised / lowered
     def E(i, ttl):
         return {"ev": "enq", "id": i, "prio": 0, "ttl": ttl}
